@@ -60,6 +60,7 @@ func bigTrees() []nodeh.TreeSpec {
 		nd(0, nd(1, leaf(2), leaf(3), leaf(4), leaf(5))),
 		nd(0, nd(1, nd(2, nd(3, nd(4, leaf(5)))))),
 		nd(0, nd(1, leaf(2), leaf(0)), nd(2, leaf(1))),
+		nd(0, nd(1, nd(2, leaf(3), leaf(4)))), // node 2: two children, parent is not the root
 	}
 }
 
@@ -609,6 +610,7 @@ func run(raw json.RawMessage) lib.Case {
 		}
 	}
 	res := pool.Run(&in.Scenario)
+	// only a malformed scenario (a generator / replay-file error the implementation cannot cause) is dropped
 	if res.Status == "error" || len(res.Nodes) == 0 || len(res.FromIDs) != len(in.Msgs) {
 		fmt.Fprintln(os.Stderr, "discarded scenario:", res.Status, res.Detail)
 		return lib.Case{Discard: true}
